@@ -111,7 +111,9 @@ class _SortedIterator:
         return self.__next__()
 
     def __next__(self) -> TNextValue:
-        if not self._next_value:
+        # exhausted means "nothing decoded": an item that is false in a boolean
+        # context (0, "", an empty record) is still an item
+        if self._next_value is None and self._next_key is None:
             raise StopIteration
         return_value = self._next_value
         self.__advance()
@@ -160,7 +162,9 @@ class _MergingIterator:
             raise StopIteration
         s_iter = heapq.heappop(self._heap)
         entry = s_iter.next()
-        if s_iter.peek_key():
+        # a key may be false in a boolean context (0, "", ()): only `None`
+        # means that the run is exhausted
+        if s_iter.peek_key() is not None:
             heapq.heappush(self._heap, s_iter)
         return entry  # type: ignore
 
